@@ -1001,6 +1001,23 @@ class Interp:
             if r is NotImplemented:
                 raise PyRaise(TypeError, "unsupported operand types")
             return r
+        if self.float_mode == "real":
+            # real mode: concrete quotients are exact rationals too (0.6 is 3/5, not the nearest double), so that concrete and
+            # symbolic arithmetic agree; this is part of the stated assumption "floats are treated as exact reals"
+            from fractions import Fraction
+            import numbers
+            if (op is ast.Div or isinstance(a, Fraction) or isinstance(b, Fraction)) and op in (ast.Div, ast.Mult, ast.Add, ast.Sub) \
+                    and isinstance(a, (int, float, Fraction)) and isinstance(b, (int, float, Fraction)) \
+                    and not isinstance(a, bool) and not isinstance(b, bool):
+                try:
+                    fa, fb = Fraction(a), Fraction(b)
+                    if op is ast.Div:
+                        if fb == 0:
+                            raise PyRaise(ZeroDivisionError, "division by zero")
+                        return fa / fb
+                    return BIN[op](fa, fb)
+                except (ValueError, OverflowError):
+                    pass
         return self.native(BIN[op], [a, b], {})
 
     def _repeat(self, s, cnt):
